@@ -2,7 +2,6 @@ SPECIFICATION Spec
 INVARIANT CaseInsensitive
 INVARIANT OffMeansNothingAbsent
 INVARIANT UserinfoAlwaysAbsent
-INVARIANT DefaultsCoverStandardHeaders
 INVARIANT ExactlySensitive
 INVARIANT Export
 CHECK_DEADLOCK FALSE
